@@ -347,7 +347,7 @@ Proof.
 Qed.
 
 (* ---------------- the global invariant ---------------- *)
-Definition accepted (c : cellsel) (a : N) (p : list instr) : Prop := accepti (dataA c) a p <> None.
+Definition accepted (c : cellsel) (a : N) (p : list instr) : Prop := accepti (dataA c) a p = Some 0.
 
 Definition TInv (c : cellsel) (S : cst) (t : nat) (th : thread) : Prop :=
   exists a, accepted c a (fst th)
@@ -450,7 +450,7 @@ Proof.
       assert (a1 = 0).
       { simpl in Er. destruct ((a =? 1) || (a =? 2) || (a =? 3) || (a =? 4) || (a =? 6) || (a =? 7)); congruence. }
       subst a1.
-      assert (Hacc' : accepti (dataA c) 0 rest <> None).
+      assert (Hacc' : accepti (dataA c) 0 rest = Some 0).
       { simpl in Er. rewrite Er in Hacc. exact Hacc. }
       assert (Hne0 : a <> 0).
       { intro; subst a. simpl in Er. discriminate. }
@@ -545,7 +545,68 @@ Theorem interleaving_table c ms threads sched :
 Proof.
   intros Ht Hc. apply (interleaving_safe c). apply Forall_forall. intros p Hp.
   apply in_map_iff in Hp as [th [E Hth]]. subst p. unfold accepted.
-  rewrite (flatten_accepted c th); [discriminate|].
+  apply (flatten_accepted c th).
+  intros cl Hcl. specialize (Hc th Hth cl Hcl). apply in_map_iff in Hc as [[name m] [E Hm]]. simpl in E. subst m.
+  unfold table_ok in Ht. rewrite forallb_forall in Ht. apply (Ht _ Hm).
+Qed.
+
+(* ---------------- progress: nobody blocks for ever ---------------- *)
+(* thread t can take a step: it has an instruction left and is not waiting for a held lock *)
+Definition enabled (S : cst) (t : nat) : Prop :=
+  exists i rest lo, nth_error (thr S) t = Some (i :: rest, lo) /\ (i = IEv KAcq -> holder S = None).
+Definition unfinished (S : cst) : Prop :=
+  exists t i rest lo, nth_error (thr S) t = Some (i :: rest, lo).
+
+Lemma J_progress c S : J c S -> unfinished S -> exists t, enabled S t.
+Proof.
+  intros [Hbad [Hthr [Hinv Hex]]] [t [i [rest [lo Ht]]]].
+  destruct (holder S) as [h|] eqn:Eh.
+  - (* the holder itself is enabled: its program is not finished and does not start with an acquire *)
+    destruct (Hex h eq_refl) as [[prog lh] Hh].
+    destruct (Hthr h _ Hh) as [a [Hacc [Hiff _]]]. simpl in Hacc. unfold accepted in Hacc.
+    assert (Hne : a <> 0). { intro E. apply Hiff in E. rewrite Eh in E. congruence. }
+    destruct prog as [|j prog'].
+    + simpl in Hacc. congruence.
+    + exists h, j, prog', lh. split; [exact Hh|]. intro E. subst j. simpl in Hacc.
+      destruct (a =? 0) eqn:Ea; [apply N.eqb_eq in Ea; congruence|discriminate].
+  - exists t, i, rest, lo. split; [exact Ht|]. intros _. rewrite Eh. reflexivity.
+Qed.
+
+Lemma enabled_steps S t : enabled S t ->
+  exists i rest lo lo', nth_error (thr S) t = Some (i :: rest, lo) /\ nth_error (thr (step S t)) t = Some (rest, lo').
+Proof.
+  intros [i [rest [lo [Ht Hen]]]]. exists i, rest, lo. unfold step. rewrite Ht.
+  destruct i as [g k|k].
+  - eexists. split; [reflexivity|]. simpl. apply (nth_error_upd_same _ _ _ _ Ht).
+  - destruct k.
+    + rewrite (Hen eq_refl). eexists. split; [reflexivity|]. simpl. apply (nth_error_upd_same _ _ _ _ Ht).
+    + destruct (holder S); eexists; (split; [reflexivity|]); simpl; apply (nth_error_upd_same _ _ _ _ Ht).
+    + destruct (do_ev (KAct a) (sh S) lo) as [s' l'] eqn:E. exists l'. split; [reflexivity|].
+      simpl. apply (nth_error_upd_same _ _ _ _ Ht).
+    + destruct (do_ev (KIf a c b) (sh S) lo) as [s' l'] eqn:E. exists l'. split; [reflexivity|].
+      simpl. apply (nth_error_upd_same _ _ _ _ Ht).
+    + eexists. split; [reflexivity|]. simpl. apply (nth_error_upd_same _ _ _ _ Ht).
+Qed.
+
+(* in every reachable state with an unfinished thread, some thread can execute its next instruction *)
+Theorem no_deadlock c progs sched :
+  Forall (accepted c 0) progs ->
+  let S := run_sched (init progs) sched in
+  unfinished S ->
+  exists t i rest lo lo', nth_error (thr S) t = Some (i :: rest, lo) /\ nth_error (thr (step S t)) t = Some (rest, lo').
+Proof.
+  intros H S Hu. pose proof (J_run c sched _ (J_init c progs H)) as HJ. fold S in HJ.
+  destruct (J_progress c S HJ Hu) as [t Ht]. exists t. apply enabled_steps. exact Ht.
+Qed.
+
+Theorem no_deadlock_table c ms threads sched :
+  table_ok c ms = true -> calls_from ms threads ->
+  let S := run_sched (init (map (flatten DeclFaults) threads)) sched in
+  unfinished S ->
+  exists t i rest lo lo', nth_error (thr S) t = Some (i :: rest, lo) /\ nth_error (thr (step S t)) t = Some (rest, lo').
+Proof.
+  intros Ht Hc. apply (no_deadlock c). apply Forall_forall. intros p Hp.
+  apply in_map_iff in Hp as [th [E Hth]]. subst p. apply (flatten_accepted c th).
   intros cl Hcl. specialize (Hc th Hth cl Hcl). apply in_map_iff in Hc as [[name m] [E Hm]]. simpl in E. subst m.
   unfold table_ok in Ht. rewrite forallb_forall in Ht. apply (Ht _ Hm).
 Qed.
